@@ -19,7 +19,6 @@ open CaddyModel.C12
 #print axioms id_resolves_partial
 #print axioms id_resolves_full_fails
 #print axioms id_on_root_full_fails
-#print axioms id_number_spelling_full_fails
 #print axioms running_config_is_document
 #print axioms rejected_changes_nothing_partial
 #print axioms rejected_changes_nothing_full_fails
